@@ -1,28 +1,18 @@
 #!/usr/bin/env python3
-"""tools/ledger_sync.py PID [key-substring=commit ...] : move every `known` entry of findings/PID.json whose patch (or key)
-matches one of the PATCHMAP / given substrings to `fixed` with that commit.  PATCHMAP maps patch file stems to /repo commits."""
-import json, sys, subprocess
-PATCHMAP = json.load(open('/verif/tools/patchmap.json'))
+"""tools/ledger_sync.py PID key-substring=commit[+commit] ... : move matching `known` entries of known_findings.json to `fixed`."""
+import json, sys
 pid = sys.argv[1]
-extra = dict(a.split('=', 1) for a in sys.argv[2:])
-p = f'/verif/findings/{pid}.json'
+extra = dict(a.rsplit('=', 1) for a in sys.argv[2:])
+p = '/verif/known_findings.json'
 d = json.load(open(p))
 keep = []
 for e in d['known']:
-    commits = []
-    for stem, c in PATCHMAP.items():
-        if e.get('patch') and stem in e['patch']:
-            commits.append(c)
-    for sub, c in extra.items():
-        if sub in e['key']:
-            commits = c.split('+')
-    if commits and e.get('disposition') != 'known':
-        c = '+'.join(dict.fromkeys(commits))
-        d.setdefault('fixed', []).append({'property': pid, 'key': e['key'], 'commit': c,
-                                          'line': f"fixed: property={pid} {c} {e['what']}", 'witness': e.get('witness')})
+    hit = [c for sub, c in extra.items() if e['property'] == pid and sub in e['key']]
+    if hit:
+        c = hit[-1]
+        d['fixed'].append({'property': pid, 'key': e['key'], 'commit': c, 'line': f"fixed: property={pid} {c} {e['what']}", 'witness': e.get('witness')})
         print('fixed', e['key'], c)
     else:
         keep.append(e)
-        print('KEPT ', e['key'], e.get('disposition'))
 d['known'] = keep
 json.dump(d, open(p, 'w'), indent=1)
